@@ -40,3 +40,44 @@ func TestBootstrap(t *testing.T) {
 		}
 	}
 }
+
+func TestDeliverValset(t *testing.T) {
+	vals := chain.DefaultValidators("dv", []int64{40_000_000, 30_000_000, 20_000_000, 10_000_000})
+	c := chain.New(chain.Config{Validators: vals, EVMChains: []chain.EVMChainSpec{{RefID: "eth-main", ChainID: 1}}, WithCompass: true, CaptureLog: true})
+	defer c.Close()
+	c.Skip(1)
+	if err := Bootstrap(c, Accts(vals), []string{"eth-main"}); err != nil {
+		t.Fatal(err)
+	}
+	if err := ActivateChain(c, "eth-main", "0x00000000000000000000000000000000000c0de1", []byte("compass-1")); err != nil {
+		t.Fatal(err)
+	}
+	snap0, err := BuildSnapshot(c)
+	if err != nil {
+		t.Fatal(err)
+	}
+	c.Skip(1)
+	if err := c.App.EvmKeeper.PublishSnapshotToAllChains(c.Ctx(), snap0, true); err != nil {
+		t.Fatal(err)
+	}
+	msgs := QueueMsgs(c, TurnstoneQueue("eth-main"))
+	if len(msgs) != 1 {
+		t.Fatalf("want 1 msg, have %d", len(msgs))
+	}
+	rtx, err := DeliverMessage(c, Accts(vals), "eth-main", 1, msgs[0].GetId(), 1)
+	if err != nil {
+		t.Fatal(err)
+	}
+	t.Logf("tx %s", rtx.Hash())
+	msgs = QueueMsgs(c, TurnstoneQueue("eth-main"))
+	snap, _ := c.App.ValsetKeeper.GetCurrentSnapshot(c.Ctx())
+	t.Logf("queue now %d msgs; snapshot %d chains %v", len(msgs), snap.Id, snap.Chains)
+	for k, v := range c.Log.Distinct() {
+		if k[0] == 'E' || k[0] == 'W' {
+			t.Logf("%4d %s", v, k)
+		}
+	}
+	if len(snap.Chains) != 1 {
+		t.Fatalf("snapshot not marked live on chain")
+	}
+}
